@@ -367,3 +367,51 @@ Definition route_target (c : rconfig) (method p : bytes) : option rt_outcome :=
   | Some (path, raw) => Some (route_req c method raw path)
   | None => None
   end.
+
+(** * pkg/ingress/ingress.go: ParseIngress / ParseIngresses, as far as the route table depends on them.
+    An ingress is given by what net/url makes of the configured string: [ri_origin] = scheme "://" host exactly as
+    written (url.URL.String() does not change the letter case of either) and [ri_path] = URL.Path.
+    - ParseIngress: u.Path = strings.TrimRight(u.Path, "/");
+    - ParseIngresses: seen[ingress.String()] - the first configured ingress with a given String() is kept; two ingresses
+      have the same String() iff origin and path agree byte for byte (the path's escaping is a function of the path);
+    - Ingresses.Paths() = mapIngresses(seen, Ingress.Path): the DISTINCT paths of the kept ingresses (a Go map is
+      iterated, so the order is unspecified: the drivers compare sorted lists).
+    router.New mounts <p>/oauth2 for every p of Paths(). *)
+Record ringress := { ri_origin : bytes; ri_path : bytes }.
+
+Fixpoint drop_leading_slashes (s : bytes) : bytes :=
+  match s with
+  | c :: r => if c =? 47 then drop_leading_slashes r else s
+  | [] => []
+  end.
+
+(* strings.TrimRight(p, "/") *)
+Definition trim_right_slashes (p : bytes) : bytes := rev (drop_leading_slashes (rev p)).
+
+Definition rt_parse_ingress (i : ringress) : ringress :=
+  {| ri_origin := ri_origin i; ri_path := trim_right_slashes (ri_path i) |}.
+
+(* Ingress.String() of both is the same string *)
+Definition ringress_eqb (a b : ringress) : bool := beq (ri_origin a) (ri_origin b) && beq (ri_path a) (ri_path b).
+
+(* first occurrence wins (seen-map idiom of ParseIngresses and mapIngresses) *)
+Fixpoint dedup_first {A : Type} (eqb : A -> A -> bool) (seen : list A) (l : list A) : list A :=
+  match l with
+  | [] => []
+  | x :: r => if existsb (eqb x) seen then dedup_first eqb seen r else x :: dedup_first eqb (x :: seen) r
+  end.
+
+Definition rt_parse_ingresses (l : list ringress) : list ringress := dedup_first ringress_eqb [] (map rt_parse_ingress l).
+
+Definition rt_ingress_paths (l : list ringress) : list bytes := dedup_first beq [] (map ri_path (rt_parse_ingresses l)).
+
+(* the variant that compares the whole String() case-insensitively ("URLs compare case-insensitively on scheme and
+   host"): kept only to show what it loses, see Proofs/IngressSetP.v *)
+Definition ringress_eqb_fold (a b : ringress) : bool :=
+  beq (to_lower (ri_origin a)) (to_lower (ri_origin b)) && beq (to_lower (ri_path a)) (to_lower (ri_path b)).
+Definition ingress_paths_fold (l : list ringress) : list bytes :=
+  dedup_first beq [] (map ri_path (dedup_first ringress_eqb_fold [] (map rt_parse_ingress l))).
+
+(* the router configuration of a deployment: prefixes = Ingresses.Paths() *)
+Definition rconfig_of_ingresses (md : mode) (idporten : bool) (l : list ringress) : rconfig :=
+  {| rc_mode := md; rc_idporten := idporten; rc_prefixes := rt_ingress_paths l |}.
